@@ -463,7 +463,7 @@ def wl_stores(ctx, rng, i):
             return sorted(os.path.join(dp, f)[len(tmp):] + ":%d" % os.path.getsize(os.path.join(dp, f)) for dp, dn, fn in os.walk(tmp) for f in fn + dn)
         unserial = stix2.v21.Identity(id="identity--" + u, name="n", x_inf=float(rng.choice(["inf", "-inf", "nan"])), allow_custom=True)
         for label, store, snapf, item in [("MemoryStore", ms, snap_mem, b) for b in bads] + [("FileSystemStore", fs, snap_fs, b) for b in bads] + \
-                [("FileSystemStore", fs, snap_fs, unserial)]:
+                [("FileSystemStore", fs, snap_fs, unserial), ("FileSystemStore", fs, snap_fs, stix2.v21.Identity(id="identity--" + u[:-2] + "ee", name="unencodable \ud800 name"))]:
             before = snapf()
             try:
                 with warnings.catch_warnings():
